@@ -436,8 +436,10 @@ def resolve_diff_args(args):
     elif base and remote:
         # Three or more
         if not is_gitref(base):
+            # Only paths given: diff HEAD against the working tree
             paths = [base, remote] + paths
-            base = remote = None
+            base = 'HEAD'
+            remote = None
         elif is_gitref(base) and not is_gitref(remote):
             paths = [remote] + paths
             remote = None
